@@ -81,3 +81,56 @@ def pad (w n : Nat) : String :=
 def iso (t : YMD) : String := pad 4 t.y ++ "-" ++ pad 2 t.m ++ "-" ++ pad 2 t.d
 
 end IronCalc.Dates
+
+/-! ### Date tokens of the number-format language (formatter/format.rs, `ParsePart::Date`)
+
+Digits are kept as lists of decimal digits so the layouts can be read back in proofs. -/
+namespace IronCalc.Dates
+
+/-- unpadded decimal digits, most significant first (`format!("{n}")`) -/
+def digitsAux : Nat → Nat → List Nat → List Nat
+  | 0, _, acc => acc
+  | fuel + 1, n, acc => if n < 10 then n :: acc else digitsAux fuel (n / 10) (n % 10 :: acc)
+def digits (n : Nat) : List Nat := digitsAux (n + 1) n []
+
+/-- two digits, zero padded (`{:02}` of a value below 100; chrono `%y`) -/
+def digits2 (n : Nat) : List Nat := [n / 10 % 10, n % 10]
+/-- `{:02}` for any value: pads to at least two -/
+def padded2 (n : Nat) : List Nat := if n < 10 then [0, n] else digits n
+
+def digitChar (d : Nat) : Char := Char.ofNat (48 + d)
+def showDigits (ds : List Nat) : String := String.ofList (ds.map digitChar)
+
+/-- the tokens `d dd m mm yy yyyy` -/
+def tokD (t : YMD) : List Nat := digits t.d
+def tokDD (t : YMD) : List Nat := padded2 t.d
+def tokM (t : YMD) : List Nat := digits t.m
+def tokMM (t : YMD) : List Nat := padded2 t.m
+def tokYY (t : YMD) : List Nat := digits2 (t.y % 100)
+def tokYYYY (t : YMD) : List Nat := digits t.y
+
+/-- en locale tables (locale/locales.json "en": dates.day_names, months) -/
+def dayNamesEn : List String := ["Sunday", "Monday", "Tuesday", "Wednesday", "Thursday", "Friday", "Saturday"]
+def dayNamesShortEn : List String := ["Sun", "Mon", "Tue", "Wed", "Thu", "Fri", "Sat"]
+def monthsEn : List String := ["January", "February", "March", "April", "May", "June", "July", "August",
+  "September", "October", "November", "December"]
+def monthsShortEn : List String := ["Jan", "Feb", "Mar", "Apr", "May", "Jun", "Jul", "Aug", "Sep", "Oct", "Nov", "Dec"]
+def monthsLetterEn : List String := ["J", "F", "M", "A", "M", "J", "J", "A", "S", "O", "N", "D"]
+
+/-- index into the locale's day names: 0 = Sunday (number_from_monday, 7 ↦ 0) -/
+def dayIndexFromSunday (s : Nat) : Nat := (weekdayFromMonday s + 1) % 7
+
+/-- read a two-digit field back -/
+def read2 : List Nat → Nat
+  | [a, b] => a * 10 + b
+  | _ => 0
+/-- read a four-digit field back -/
+def read4 : List Nat → Nat
+  | [a, b, c, d] => a * 1000 + b * 100 + c * 10 + d
+  | _ => 0
+
+/-- the layout `dd/mm/yyyy` as its three digit fields -/
+def layoutDMY (t : YMD) : List Nat × List Nat × List Nat := (tokDD t, tokMM t, tokYYYY t)
+def readDMY (f : List Nat × List Nat × List Nat) : YMD := ⟨read4 f.2.2, read2 f.2.1, read2 f.1⟩
+
+end IronCalc.Dates
